@@ -1,2 +1,143 @@
-From GixV.Base Require Import Bytes Outcome.
-From GixV.C56 Require Import Model Proofs.
+(* C56 — Streaming compression and hashing do not depend on chunking.
+   Only statements here; every proof is [exact <lemma>].
+
+   Model.v: deflate::Write (write_inner loop, write, flush, reset), std's write_all and read_exact,
+   hash::Write, bytes_with_hasher, loose_header, compute_hash, compute_stream_hash.
+   The compressor is any [cstep]/[cinit] with an [inflate] satisfying [compressor_contract] (Spec.v):
+   a call consumes a prefix of its input and fills at most the output buffer; whenever a call answers
+   StreamEnd, all output so far inflates to all input consumed so far; Finish with no input either
+   produces output or answers StreamEnd.  The hash function [H] is ANY function on byte strings
+   (the hasher's contract — digest = H of the concatenated updates — is built into the model).
+   [sink] is a recording inner writer that may accept only [limit] bytes per call.
+   [deflate_session]   = new; write_all every buffer; flush; into_inner
+   [deflate_session_w] = the same with ONE write call per buffer, returning the counts
+   [loose_session]     = hash::Write<deflate::Write<sink>> (gix-odb's loose object writer's stack).
+   Fuel [k] allows 2^k iterations of the write_inner loop. *)
+From Coq Require Import List NArith.
+From GixV.Base Require Import Bytes BytesFacts Outcome.
+From GixV.C56 Require Import Model Spec Proofs ProofsDeflate ProofsSession ProofsWitness.
+Import ListNotations.
+Local Open Scope N_scope.
+
+Section WithCompressor.
+  Context {C : Type}.
+  Variable cstep : C -> bytes -> N -> flush -> option (C * (N * bytes * status)).
+  Variable cinit : C.
+  Variable inflate : bytes -> option bytes.
+  Hypothesis CC : compressor_contract cstep cinit inflate.
+  Variable k : nat.
+
+  (* any split of the input into writes gives an output that inflates to the concatenation; and no
+     empty write ever reaches the inner writer *)
+  Theorem chunking_irrelevant : forall limit ws s,
+    deflate_session cstep cinit k limit ws = Ok s ->
+    inflate (sink_content s) = Some (concat ws) /\ s_zero s = 0.
+  Proof. exact (L_chunking_irrelevant cstep cinit inflate CC k). Qed.
+
+  (* with single write calls: every call reports a count within its buffer, and the output inflates
+     to exactly the reported prefixes, in order — nothing lost, nothing duplicated *)
+  Theorem no_lost_or_duplicated_input : forall limit ws s ns,
+    deflate_session_w cstep cinit k limit ws = Ok (s, ns) ->
+    Forall2 (fun w n => n <= lenN w) ws ns /\
+    inflate (sink_content s) = Some (accepted ws ns).
+  Proof. exact (L_no_lost_or_duplicated_input cstep cinit inflate CC k). Qed.
+
+  (* flush; reset; ...: two complete streams one after the other in the same inner writer *)
+  Theorem reset_starts_a_new_stream : forall limit ws1 ws2 s,
+    deflate_two_streams cstep cinit k limit ws1 ws2 = Ok s ->
+    exists o1 o2, sink_content s = o1 ++ o2 /\
+                  inflate o1 = Some (concat ws1) /\ inflate o2 = Some (concat ws2).
+  Proof. exact (L_two_streams cstep cinit inflate CC k). Qed.
+
+  (* hashing while compressing: the hasher saw, and the stream inflates to, the concatenation *)
+  Theorem loose_writer_stack : forall limit ws hs s,
+    loose_session cstep cinit k limit ws = Ok (hs, s) ->
+    hfed hs = concat ws /\ inflate (sink_content s) = Some (concat ws) /\ s_zero s = 0.
+  Proof. exact (L_loose_session cstep cinit inflate CC k). Qed.
+
+  (* never a panic (slice indices stay in range), and the loop terminates within 2^k iterations
+     when the compressor has a termination measure *)
+  Theorem deflate_never_panics_nor_hangs : forall mu K, compressor_measure cstep mu K ->
+    forall limit ws, (mu cinit + K * length (concat ws) < 2 ^ k)%nat ->
+    deflate_session cstep cinit k limit ws <> Panic /\
+    deflate_session cstep cinit k limit ws <> OutOfFuel.
+  Proof. exact (L_session_total cstep cinit inflate CC k). Qed.
+End WithCompressor.
+
+(* ---- hashing: for every hash function H and EVERY inner writer ---- *)
+
+(* hashing while writing = hashing in one call *)
+Theorem hash_write_eq_oneshot : forall W (wr : W -> bytes -> outcome (W * N) err) H w ws h',
+  write_all_list (hwrite wr) (hnew w) ws = Ok h' -> hdigest H (h_hash h') = H (concat ws).
+Proof. exact (@L_hash_write_eq_oneshot). Qed.
+
+(* single write calls: exactly the accepted prefixes are hashed, even when the inner writer accepts
+   only part of a buffer *)
+Theorem hash_write_hashes_what_was_accepted : forall W (wr : W -> bytes -> outcome (W * N) err) H w ws h' ns,
+  write_list (hwrite wr) (hnew w) ws = Ok (h', ns) ->
+  Forall2 (fun b n => n <= lenN b) ws ns /\ hdigest H (h_hash h') = H (accepted ws ns).
+Proof. exact (@L_hash_write_counts). Qed.
+
+(* ... and the inner writer received exactly the hashed bytes *)
+Theorem hash_write_inner_gets_the_hashed_bytes : forall limit room ws h' ns,
+  write_list (hwrite sink_write) (hnew (sink_new limit room)) ws = Ok (h', ns) ->
+  sink_content (h_inner h') = hfed (h_hash h').
+Proof. exact L_hash_write_sink. Qed.
+
+(* the object id is the hash of "<kind> <decimal length>\0" followed by the data *)
+Theorem compute_hash_is_git_object_hash : forall H k data,
+  compute_hash H k data =
+  H (kind_bytes k ++ [sp] ++ N_to_dec (N.of_nat (length data)) ++ [Byte.x00] ++ data).
+Proof. exact L_compute_hash_git. Qed.
+
+(* hashing a stream = hashing in one call, whatever pieces the reader delivers *)
+Theorem stream_hash_eq_oneshot : forall H k r n d,
+  compute_stream_hash H k r n false = Ok d ->
+  n <= lenN (concat r) /\ d = compute_hash H k (takeN n (concat r)).
+Proof. exact L_stream_hash_eq_oneshot. Qed.
+
+Theorem stream_hash_never_panics_nor_hangs : forall H k r n i,
+  compute_stream_hash H k r n i <> Panic /\ compute_stream_hash H k r n i <> OutOfFuel.
+Proof. exact compute_stream_hash_total. Qed.
+
+(* an interrupted run never yields an id for a non-empty stream *)
+Theorem stream_hash_interrupted : forall H k r n d,
+  compute_stream_hash H k r n true = Ok d -> n = 0.
+Proof. exact L_stream_hash_interrupted. Qed.
+
+(* hashing while writing, hashing a stream and hashing in one call: the same id for the same object *)
+Theorem ids_agree : forall C cstep cinit inflate, @compressor_contract C cstep cinit inflate ->
+  forall kf limit H k body pieces r hs s d,
+  concat pieces = body -> concat r = body ->
+  loose_session cstep cinit kf limit (loose_header k (lenN body) :: pieces) = Ok (hs, s) ->
+  compute_stream_hash H k r (lenN body) false = Ok d ->
+  hdigest H hs = compute_hash H k body /\ d = compute_hash H k body /\
+  inflate (sink_content s) = Some (loose_header k (lenN body) ++ body).
+Proof. exact (@L_ids_agree). Qed.
+
+(* ---- non-vacuity ---- *)
+(* the contract and the measure are satisfiable (a copying compressor that takes at most `cap`
+   bytes per call, so that big inputs need several loop iterations) *)
+Theorem contract_is_satisfiable :
+  compressor_contract idc_step false idc_inflate /\ compressor_measure idc_step idc_mu 2.
+Proof. exact (conj idc_contract idc_measure). Qed.
+
+Example session_example :
+  exists s, deflate_session idc_step false 8 3 [bs "ab"; []; bs "cdefgh"] = Ok s /\
+            sink_content s = bs "abcdefgh" /\ s_chunks s = [bs "fgh"; bs "cde"; bs "ab"].
+Proof. eexists. split; [vm_compute; reflexivity|split; vm_compute; reflexivity]. Qed.
+
+Example loose_example :
+  exists hs s, loose_session idc_step false 8 0 [loose_header KBlob 2; bs "h"; bs "i"] = Ok (hs, s) /\
+               hfed hs = bs "blob 2" ++ [Byte.x00] ++ bs "hi".
+Proof. eexists. eexists. split; vm_compute; reflexivity. Qed.
+
+Example stream_hash_example :
+  compute_stream_hash (fun x => x) KBlob [bs "ab"; bs "c"; bs "tail"] 3 false
+  = Ok (bs "blob 3" ++ [Byte.x00] ++ bs "abc").
+Proof. vm_compute. reflexivity. Qed.
+
+Example hash_write_partial_example :
+  exists h', write_list (hwrite sink_write) (hnew (sink_new 2 None)) [bs "abc"; bs "d"] = Ok (h', [2; 1]) /\
+             hfed (h_hash h') = bs "abd".
+Proof. eexists. split; vm_compute; reflexivity. Qed.
